@@ -199,6 +199,18 @@ class Surrogates(Cached):
 
         self._normalized = True
 
+    def _normalized_copy(self):
+        """
+        Return a Surrogates instance holding a normalized copy of the
+        original data (and the same embedding).
+        """
+        other = Surrogates(original_data=self.original_data.copy(),
+                           silence_level=self.silence_level)
+        other.normalize_original_data()
+        if self._embedding is not None:
+            other.embedding = self._embedding
+        return other
+
     @staticmethod
     def recurrence_plot(embedding, threshold, silence_level=1):
         """
@@ -372,7 +384,8 @@ class Surrogates(Cached):
             low=0, high=2 * np.pi, size=(self.N, len_phase))
 
         #  Add random phases uniformly distributed in the interval [0, 2*Pi]
-        surrogates *= np.exp(1j * phases)
+        #  (not in place: surrogates is the memoised FFT)
+        surrogates = surrogates * np.exp(1j * phases)
 
         #  Calculate IFFT and take the real part, the remaining imaginary part
         #  is due to numerical errors.
@@ -633,8 +646,10 @@ class Surrogates(Cached):
                   "original_data ...")
 
         #  Normalize original_data time series to zero mean and unit variance
+        #  (on a copy: the caller's array and later queries are not affected)
         if not self._normalized:
-            self.normalize_original_data()
+            return self._normalized_copy().original_distribution(
+                test_function, n_bins)
 
         correlation_measure = np.abs(test_function(self.original_data,
                                                    self.original_data))
@@ -681,12 +696,15 @@ class Surrogates(Cached):
             print(f"Starting significance test based on {realizations} "
                   "realizations of surrogates...")
 
+        #  Normalize original_data time series to zero mean and unit variance
+        #  (on a copy: the caller's array and later queries are not affected)
+        if not self._normalized:
+            return self._normalized_copy().test_threshold_significance(
+                surrogate_function, test_function, realizations, n_bins,
+                interval)
+
         self.original_data_fft.cache_clear()
         self.twins.cache_clear()
-
-        #  Normalize original_data time series to zero mean and unit variance
-        if not self._normalized:
-            self.normalize_original_data()
 
         #  Initialize density estimate
         density_estimate = np.zeros(n_bins)
